@@ -34,6 +34,7 @@ import (
 	"github.com/dominant-strategies/go-quai/common"
 	"github.com/dominant-strategies/go-quai/core"
 	"github.com/dominant-strategies/go-quai/core/rawdb"
+	"github.com/dominant-strategies/go-quai/core/state"
 	"github.com/dominant-strategies/go-quai/core/types"
 	"github.com/dominant-strategies/go-quai/crypto"
 	"github.com/dominant-strategies/go-quai/crypto/multiset"
@@ -63,6 +64,8 @@ const (
 	sigSize     = "utxo-set-size-differs-from-db-scan"
 	sigDet      = "process-nondeterministic"
 	sigBackend  = "process-backend-dependent"
+	sigSnap     = "process-depends-on-snapshot-layer"
+	sigRestart  = "head-state-not-on-disk-after-restart"
 	sigReject   = "own-block-rejected"
 	sigState    = "state-roots-do-not-open"
 	sigScanDiff = "db-content-backend-dependent"
@@ -134,11 +137,116 @@ type locMem struct{ *memorydb.Database }
 func (l locMem) Location() common.Location { return loc }
 
 type node struct {
-	name string
-	db   ethdb.Database
-	z    *core.VerifZone
-	dir  string
-	dbl  []common.Hash // element hashes removed twice from this node's accumulator so far (finding F5)
+	name     string
+	db       ethdb.Database
+	z        *core.VerifZone
+	dir      string
+	dbl      []common.Hash // element hashes removed twice from this node's accumulator so far (finding F5)
+	opts     core.VerifZoneOptions
+	restarts int
+}
+
+// restart stops the node (the stop a real node performs: worker, pool, header chain; nothing journals the
+// snapshot diff layers or the trie dirty caches) and starts a new one over the same database: NewHeaderChain ->
+// loadLastState, NewStateProcessor -> fresh trie caches, snapshot.New(rebuild) for the head root. Everything that
+// only lived in the old process' memory is gone.
+func (n *node) restart() error {
+	n.waitSnapIdle()
+	func() {
+		defer func() { recover() }()
+		n.z.Close()
+	}()
+	z, err := core.VerifNewZone(n.db, n.opts, logger)
+	if err != nil {
+		return err
+	}
+	n.z = z
+	n.restarts++
+	return nil
+}
+
+// waitSnapIdle waits until the background generator of the node's snapshot tree (started by snapshot.New(rebuild)
+// at node start) has finished. A real process takes its generator with it when it dies; here the old node's
+// goroutines live on in the harness process, so a node is only stopped / its database only closed once they are idle.
+func (n *node) waitSnapIdle() {
+	t := n.z.VerifC06Snaps()
+	if t == nil {
+		return
+	}
+	dl := time.Now().Add(10 * time.Second)
+	for time.Now().Before(dl) {
+		it, err := t.AccountIterator(t.DiskRoot(), common.Hash{})
+		if err == nil {
+			it.Release()
+			return
+		}
+		time.Sleep(500 * time.Microsecond)
+	}
+	rep.Count("snapshot_generator_still_busy")
+}
+
+// diskState opens the account state and the ETX set committed by a header from the DATABASE ALONE (fresh
+// state/trie databases: no dirty node cache, no clean cache, no snapshot of a running node) and walks every
+// node of the account trie, of every storage trie, every contract code and every node of the ETX-set trie.
+// Returns "" if everything the header commits to is on disk.
+func diskState(db ethdb.Database, block *types.WorkObject) (what string) {
+	defer func() {
+		if r := recover(); r != nil {
+			what = fmt.Sprintf("panic: %v", r)
+		}
+	}()
+	st, err := state.New(block.EVMRoot(), block.EtxSetRoot(), block.QuaiStateSize(), state.NewDatabase(db), state.NewDatabase(db), nil, loc, logger)
+	if err != nil {
+		return "state at EVMRoot/EtxSetRoot does not open from the database: " + errClass(err)
+	}
+	it := state.NewNodeIterator(st)
+	for it.Next() {
+	}
+	if it.Error != nil {
+		return "account/storage trie under EVMRoot is incomplete in the database: " + errClass(it.Error)
+	}
+	if st.IntermediateRoot(true) != block.EVMRoot() || st.ETXRoot() != block.EtxSetRoot() {
+		return "state opened from the database has other roots than the header"
+	}
+	tr, err := trie.New(block.EtxSetRoot(), trie.NewDatabase(db))
+	if err != nil {
+		return "ETX-set trie under EtxSetRoot does not open from the database: " + errClass(err)
+	}
+	nit := tr.NodeIterator(nil)
+	for nit.Next(true) {
+	}
+	if nit.Error() != nil {
+		return "ETX-set trie under EtxSetRoot is incomplete in the database: " + errClass(nit.Error())
+	}
+	if _, err := st.GetOldestIndex(); err != nil {
+		return "ETX queue index unreadable from the database: " + errClass(err)
+	}
+	return ""
+}
+
+// reopen = monitor (f): the live node opens the state at the header roots, recomputes the same roots, balances and the
+// ETX queue index are readable.
+func reopen(n *node, block *types.WorkObject, a *actors) (what string) {
+	defer func() {
+		if r := recover(); r != nil {
+			what = fmt.Sprintf("reopening the state panicked: %v", r)
+		}
+	}()
+	st, err := n.z.StateAt(block)
+	if err != nil {
+		return "state at EVMRoot/EtxSetRoot does not open: " + errClass(err)
+	}
+	if st.IntermediateRoot(true) != block.EVMRoot() || st.ETXRoot() != block.EtxSetRoot() {
+		return "reopened state has other roots than the header"
+	}
+	for _, qa := range a.quaiAddrs {
+		ia, _ := qa.InternalAndQuaiAddress()
+		st.GetBalance(ia)
+	}
+	if _, err := st.GetOldestIndex(); err != nil {
+		return "ETX queue unreadable"
+	}
+	return ""
 }
 
 func newNode(kind string, tmp string, idx int, a *actors) (*node, error) {
@@ -164,7 +272,8 @@ func newNode(kind string, tmp string, idx int, a *actors) (*node, error) {
 		n.db = rawdb.NewDatabase(d)
 	}
 	cb, qi := a.quaiAddrs[1], a.qiAddrs[5]
-	z, err := core.VerifNewZone(n.db, core.VerifZoneOptions{Location: loc, QuaiCoinbase: cb, QiCoinbase: qi, GenesisTime: 1000}, logger)
+	n.opts = core.VerifZoneOptions{Location: loc, QuaiCoinbase: cb, QiCoinbase: qi, GenesisTime: 1000}
+	z, err := core.VerifNewZone(n.db, n.opts, logger)
 	if err != nil {
 		return nil, err
 	}
@@ -173,6 +282,7 @@ func newNode(kind string, tmp string, idx int, a *actors) (*node, error) {
 }
 func (n *node) close() {
 	defer func() { recover() }()
+	n.waitSnapIdle()
 	n.z.Close()
 	n.db.Close()
 	if n.dir != "" {
@@ -317,6 +427,30 @@ func (o *procObs) fingerprint() string {
 	return fmt.Sprintf("%s|%x|%x|%d|%d|%d|%x|%x|%x|%s|%s|%x|%x", o.err, o.receipts, o.etxs, o.gas, o.stateUsed, o.setSize, o.muhash, o.evmRoot, o.etxRoot, o.trieSize, o.validate, o.delta, o.keyset)
 }
 
+// diffFields names the observables in which two runs differ (names only: stable text)
+func diffFields(a, b *procObs) string {
+	var d []string
+	add := func(name string, x, y any) {
+		if fmt.Sprint(x) != fmt.Sprint(y) {
+			d = append(d, name)
+		}
+	}
+	add("error", a.err, b.err)
+	add("receiptRoot", a.receipts, b.receipts)
+	add("outboundEtxs", a.etxs, b.etxs)
+	add("gasUsed", a.gas, b.gas)
+	add("stateUsed", a.stateUsed, b.stateUsed)
+	add("utxoSetSize", a.setSize, b.setSize)
+	add("utxoRoot", a.muhash, b.muhash)
+	add("evmRoot", a.evmRoot, b.evmRoot)
+	add("etxSetRoot", a.etxRoot, b.etxRoot)
+	add("quaiTrieSize", a.trieSize, b.trieSize)
+	add("validateVerdict", a.validate, b.validate)
+	add("utxoBatchDelta", a.delta, b.delta)
+	add("batchKeySet", a.keyset, b.keyset)
+	return strings.Join(d, ",")
+}
+
 func errClass(err error) string {
 	if err == nil {
 		return ""
@@ -328,7 +462,40 @@ func errClass(err error) string {
 	return strings.TrimSpace(s)
 }
 
-func processOnce(n *node, block *types.WorkObject) (o *procObs) {
+// snapshot configurations under which a block is re-executed (the property: commitments do not depend on
+// cache warmth / configuration): "node" = whatever snapshot tree the node's processor has at this point
+// (diff layers accumulated since start, or a disk layer under regeneration after a restart), "nosnap" = no
+// snapshot tree (SnapshotLimit = 0, or the load failed), "fresh" = a completely generated snapshot of the
+// parent state (restart + regeneration finished).
+const (
+	cfgNode   = "node"
+	cfgNoSnap = "nosnap"
+	cfgFresh  = "fresh"
+)
+
+func parentEvmRoot(n *node, block *types.WorkObject) common.Hash {
+	ph := block.ParentHash(common.ZONE_CTX)
+	if n.z.Hc.IsGenesisHash(ph) {
+		return types.EmptyRootHash
+	}
+	if p := n.z.Hc.GetHeaderByHash(ph); p != nil {
+		return p.EVMRoot()
+	}
+	return types.EmptyRootHash
+}
+
+func parentEtxRoot(n *node, block *types.WorkObject) common.Hash {
+	ph := block.ParentHash(common.ZONE_CTX)
+	if n.z.Hc.IsGenesisHash(ph) {
+		return types.EmptyRootHash
+	}
+	if p := n.z.Hc.GetHeaderByHash(ph); p != nil {
+		return p.EtxSetRoot()
+	}
+	return types.EmptyRootHash
+}
+
+func processOnce(n *node, block *types.WorkObject, cfg string) (o *procObs) {
 	o = &procObs{}
 	defer func() {
 		if r := recover(); r != nil {
@@ -339,7 +506,31 @@ func processOnce(n *node, block *types.WorkObject) (o *procObs) {
 		}
 	}()
 	batch := n.db.NewBatch()
-	receipts, etxs, _, statedb, usedGas, usedState, setSize, ms, _, err := n.z.Processor().Process(block, batch)
+	var (
+		receipts                    types.Receipts
+		etxs                        []*types.Transaction
+		statedb                     *state.StateDB
+		usedGas, usedState, setSize uint64
+		ms                          *multiset.MultiSet
+		err                         error
+	)
+	switch cfg {
+	case cfgNoSnap:
+		receipts, etxs, statedb, usedGas, usedState, setSize, ms, err = n.z.VerifC06ProcessSnaps(nil, block, batch)
+	case cfgFresh:
+		tree, terr := n.z.VerifC06FreshSnaps(parentEvmRoot(n, block), 20*time.Second)
+		if terr != nil {
+			o.err = "harness: " + terr.Error()
+			return
+		}
+		if tree.Snapshot(parentEvmRoot(n, block)) == nil {
+			o.err = "harness: generated snapshot has no layer for the parent root"
+			return
+		}
+		receipts, etxs, statedb, usedGas, usedState, setSize, ms, err = n.z.VerifC06ProcessSnaps(tree, block, batch)
+	default:
+		receipts, etxs, _, statedb, usedGas, usedState, setSize, ms, _, err = n.z.Processor().Process(block, batch)
+	}
 	if err != nil {
 		o.err = "process: " + errClass(err)
 		if verbose {
@@ -398,11 +589,16 @@ func processOnce(n *node, block *types.WorkObject) (o *procObs) {
 type ChainSpec struct {
 	ID      uint64   `json:"id"`
 	Seed    uint64   `json:"seed"`
-	Kind    string   `json:"kind"` // f5 | clean | random | lockup
+	Kind    string   `json:"kind"` // f5 | clean | random | lockup | recreate
 	Len     int      `json:"len"`
 	Primary int      `json:"primary"` // which backend assembles
 	Kinds   []string `json:"backends"`
 	Reps    int      `json:"reps"` // Process repetitions per block and backend
+	// kind "storage": a batch of storage scenarios (storage.go): either the one scenario given, or the batch
+	// regenerated from seed / sto_n / sto_corpus
+	Scenario  *stoScenario `json:"scenario,omitempty"`
+	StoN      int          `json:"sto_n,omitempty"`
+	StoCorpus bool         `json:"sto_corpus,omitempty"`
 }
 
 type indexer struct {
@@ -437,6 +633,17 @@ type chainResult struct {
 
 var gomax = []int{1, 4, 16}
 
+const corpusChains = 4 // chains 1..4 are the fixed corpus
+
+// where the wall time goes (reported as notes; not part of any verdict)
+var spent = map[string]time.Duration{}
+
+func timed(what string, f func()) {
+	t0 := time.Now()
+	f()
+	spent[what] += time.Since(t0)
+}
+
 func failCase(sig, what string, spec ChainSpec, blockNo uint64, extra string) {
 	c := map[string]any{"id": spec.ID, "seed": spec.Seed, "kind": spec.Kind, "len": spec.Len, "primary": spec.Primary, "backends": spec.Kinds, "reps": spec.Reps, "at_block": blockNo, "detail": extra}
 	rep.Fail(sig, what, c)
@@ -445,22 +652,23 @@ func failCase(sig, what string, spec ChainSpec, blockNo uint64, extra string) {
 // ---------------- scenario ----------------
 
 type scenario struct {
-	r      *hlib.Rng
-	a      *actors
-	spec   ChainSpec
-	height map[string]uint64 // key -> block number that created it
-	used   map[string]bool   // outpoints already put into a pool tx
-	nonce  map[int]uint64
-	funded map[int]bool
-	contract *common.Address
-	deployed bool
-	minerSet bool
-	preferQi bool
-	lockByte uint8
-	store        *common.Address // storage-writing contract (six SSTOREs of the call data word per call)
-	storeTx      common.Hash
-	lockupTx     common.Hash
-	storeReady   bool
+	r          *hlib.Rng
+	a          *actors
+	spec       ChainSpec
+	height     map[string]uint64 // key -> block number that created it
+	used       map[string]bool   // outpoints already put into a pool tx
+	nonce      map[int]uint64
+	funded     map[int]bool
+	contract   *common.Address
+	deployed   bool
+	minerSet   bool
+	preferQi   bool
+	lockByte   uint8
+	store      *common.Address // storage-writing contract (six SSTOREs of the call data word per call)
+	storeTx    common.Hash
+	lockupTx   common.Hash
+	storeReady bool
+	rc         *recreate // re-creation script (recreate.go); nil: not played in this chain
 }
 
 func (s *scenario) foreignQiEtx(to common.Address, den uint8, idx uint16) *types.Transaction {
@@ -478,6 +686,21 @@ func (s *scenario) conversionEtx(from, to common.Address, value *big.Int, idx ui
 func (s *scenario) fundEtx(to common.Address, value *big.Int, idx uint16) *types.Transaction {
 	oh := common.BytesToHash(s.r.Bytes(32))
 	return types.NewTx(&types.ExternalTx{To: &to, Sender: s.a.fQuai, Value: value, EtxType: types.DefaultType, OriginatingTxHash: oh, ETXIndex: idx, Gas: 600000}) // enough gas for new-account creation
+}
+
+// afterPrimaryRestart: the assembling node was restarted, its transaction pool is empty again
+func (s *scenario) afterPrimaryRestart() {
+	s.nonce = map[int]uint64{}
+	s.used = map[string]bool{}
+	if s.store != nil && !s.storeReady {
+		s.store = nil
+	}
+	if s.contract != nil && !s.deployed {
+		s.contract = nil
+	}
+	if s.rc != nil {
+		s.rc.afterPrimaryRestart()
+	}
 }
 
 // inbound ETXs the "dominant chain" delivers to the child of the block just appended
@@ -788,7 +1011,12 @@ func (s *scenario) poolTxs(n *node, content []entry, nextNo uint64) []*types.Tra
 					s.store = &common.Address{}
 					isDeploy = "store"
 				} else if s.storeReady && r.Chance(85) {
-					inner = &types.QuaiTx{ChainID: chainID, Nonce: nonce, GasPrice: gp, Gas: 400000, To: s.store, Value: big.NewInt(0), Data: r.Bytes(32)}
+					word := r.Bytes(32)
+					if r.Chance(20) {
+						word = make([]byte, 32) // clears the six slots (size bookkeeping downwards; a later call sets them again)
+						rep.Count("storage_call_clearing")
+					}
+					inner = &types.QuaiTx{ChainID: chainID, Nonce: nonce, GasPrice: gp, Gas: 400000, To: s.store, Value: big.NewInt(0), Data: word}
 				}
 			}
 			if s.spec.Kind == "lockup" && s.contract == nil && i == 0 {
@@ -823,6 +1051,7 @@ func (s *scenario) poolTxs(n *node, content []entry, nextNo uint64) []*types.Tra
 			}
 			txs = append(txs, tx)
 		}
+		txs = append(txs, s.recreateTxs(n, st)...)
 	}
 	return txs
 }
@@ -858,23 +1087,32 @@ func runChain(spec ChainSpec, a *actors, tmp string) (res chainResult) {
 		nodes = append(nodes, n)
 	}
 	defer func() {
-		for _, n := range nodes {
-			n.close()
-		}
+		timed("close", func() {
+			for _, n := range nodes {
+				n.close()
+			}
+		})
 		runtime.GOMAXPROCS(runtime.NumCPU())
 	}()
 	prim := nodes[spec.Primary%len(nodes)]
 	sc := &scenario{r: hlib.NewRng(spec.Seed), a: a, spec: spec, height: map[string]uint64{}, used: map[string]bool{}, nonce: map[int]uint64{}, funded: map[int]bool{}}
-	if spec.Kind == "random" || spec.Kind == "lockup" {
+	if spec.Kind == "random" || spec.Kind == "lockup" || spec.Kind == "recreate" {
 		sc.preferQi, sc.lockByte = sc.r.Bool(), uint8(sc.r.Intn(4))
 		prim.z.VerifC06SetMiner(sc.preferQi, sc.lockByte, nil)
+		if spec.Kind == "recreate" || sc.r.Chance(65) {
+			sc.rc = newRecreate(sc.r.Fork(), spec.Kind == "recreate")
+			rep.Count("chain_plays_recreation_script")
+		}
 	}
+	rr := hlib.NewRng(spec.Seed ^ 0x5e57a47).Fork() // restart schedule (own stream: does not disturb the scenario)
 	ix := &indexer{keys: map[string]int{}, elems: map[common.Hash]int{}}
 	var backlog types.Transactions
 	parentContent := map[string]entry{} // primary's content before the block
 
 	for step := 0; step < spec.Len; step++ {
-		block, err := prim.z.VerifC06Assemble(true)
+		var block *types.WorkObject
+		var err error
+		timed("assemble", func() { block, err = prim.z.VerifC06Assemble(true) })
 		if err != nil {
 			res.broken = "assemble: " + errClass(err)
 			if verbose {
@@ -888,27 +1126,54 @@ func runChain(spec ChainSpec, a *actors, tmp string) (res chainResult) {
 		var ref *procObs
 		var refName string
 		var primObs *procObs
-		for _, n := range nodes {
+		creates := false
+		for _, tx := range block.Transactions() {
+			if tx.Type() == types.QuaiTxType && (tx.To() == nil || (sc.rc != nil && sc.rc.txKind[tx.Hash()] != "")) {
+				creates = true
+			}
+		}
+		for ni, n := range nodes {
+			// what the node itself has for the parent state (input distribution of the snapshot dimension)
+			hasTree, hasLayer := n.z.VerifC06SnapState(parentEvmRoot(n, block))
+			rep.Count(fmt.Sprintf("snap_tree_%v_layer_%v", hasTree, hasLayer))
+			cfgs := make([]string, 0, spec.Reps+2)
 			for k := 0; k < spec.Reps; k++ {
+				cfgs = append(cfgs, cfgNode)
+			}
+			cfgs = append(cfgs, cfgNoSnap)
+			// the generated-disk-layer configuration: on every backend when the block creates contracts or plays the
+			// re-creation script, on one backend in turn otherwise (generation costs as much as the block itself)
+			if creates || ni == step%len(nodes) {
+				cfgs = append(cfgs, cfgFresh)
+			}
+			for k, cfg := range cfgs {
 				runtime.GOMAXPROCS(gomax[k%len(gomax)])
 				var o *procObs
-				n.z.VerifC06Locked(func() { o = processOnce(n, block) })
+				timed("process_"+cfg, func() { n.z.VerifC06Locked(func() { o = processOnce(n, block, cfg) }) })
 				if n == prim && k == 0 {
 					primObs = o
 				}
 				if strings.HasPrefix(o.err, "PANIC") {
 					failCase(sigPanic, "Process panicked: "+o.err, spec, no, n.name)
 				}
+				if strings.HasPrefix(o.err, "harness:") {
+					rep.Note(fmt.Sprintf("chain %d block %d %s cfg %s: %s", spec.ID, no, n.name, cfg, o.err))
+					rep.Count("snapshot_cfg_not_built")
+					continue
+				}
+				rep.Count("process_cfg_" + cfg)
 				if ref == nil {
 					ref, refName = o, n.name
 					continue
 				}
 				if o.fingerprint() != ref.fingerprint() {
 					sig := sigDet
-					if n.name != refName {
+					if cfg != cfgNode {
+						sig = sigSnap
+					} else if n.name != refName {
 						sig = sigBackend
 					}
-					failCase(sig, fmt.Sprintf("Process of the same block on the same parent gave different results (%s run %d GOMAXPROCS=%d vs %s run 0): %s <> %s", n.name, k, gomax[k%len(gomax)], refName, o.fingerprint(), ref.fingerprint()), spec, no, n.name)
+					failCase(sig, fmt.Sprintf("Process of the same block on the same parent gave different results (%s run %d GOMAXPROCS=%d snapshot configuration %q [node: tree=%v layer for parent root=%v] vs %s run 0 configuration %q): differing: %s: %s <> %s", n.name, k, gomax[k%len(gomax)], cfg, hasTree, hasLayer, refName, cfgNode, diffFields(o, ref), o.fingerprint(), ref.fingerprint()), spec, no, n.name+"/"+cfg)
 				}
 			}
 		}
@@ -947,7 +1212,9 @@ func runChain(spec ChainSpec, a *actors, tmp string) (res chainResult) {
 		}
 		// ---- append on every backend ----
 		for _, n := range nodes {
-			if err := n.z.VerifC06Append(block); err != nil {
+			var err error
+			timed("append", func() { err = n.z.VerifC06Append(block) })
+			if err != nil {
 				failCase(sigReject, fmt.Sprintf("block %d assembled on %s is rejected by the node on %s: %s", no, prim.name, n.name, errClass(err)), spec, no, n.name)
 				if verbose {
 					fmt.Fprintln(os.Stderr, "append:", n.name, err)
@@ -961,7 +1228,8 @@ func runChain(spec ChainSpec, a *actors, tmp string) (res chainResult) {
 		var primScan []entry
 		var refScan string
 		for _, n := range nodes {
-			es := scan(n.db)
+			var es []entry
+			timed("scan", func() { es = scan(n.db) })
 			if n == prim {
 				primScan = es
 			}
@@ -994,29 +1262,16 @@ func runChain(spec ChainSpec, a *actors, tmp string) (res chainResult) {
 			if size != uint64(len(es))-uint64(len(n.dbl)) {
 				failCase(sigSize, fmt.Sprintf("block %d on %s: stored UTXO set size %d, database holds %d entries (%d recorded double removals)", no, n.name, size, len(es), len(n.dbl)), spec, no, n.name)
 			}
-			// state reopens at the header roots
-			func() {
-				defer func() {
-					if r := recover(); r != nil {
-						failCase(sigState, fmt.Sprintf("reopening state of block %d on %s panicked: %v", no, n.name, r), spec, no, n.name)
-					}
-				}()
-				st, err := n.z.StateAt(block)
-				if err != nil {
-					failCase(sigState, fmt.Sprintf("state at EVMRoot/EtxSetRoot of block %d does not open on %s: %s", no, n.name, errClass(err)), spec, no, n.name)
-					return
-				}
-				if st.IntermediateRoot(true) != block.EVMRoot() || st.ETXRoot() != block.EtxSetRoot() {
-					failCase(sigState, fmt.Sprintf("state reopened at block %d on %s has other roots than the header", no, n.name), spec, no, n.name)
-				}
-				for _, qa := range a.quaiAddrs {
-					ia, _ := qa.InternalAndQuaiAddress()
-					st.GetBalance(ia)
-				}
-				if _, err := st.GetOldestIndex(); err != nil {
-					failCase(sigState, fmt.Sprintf("ETX queue of block %d unreadable on %s", no, n.name), spec, no, n.name)
-				}
-			}()
+			// state reopens at the header roots on the live node ...
+			if w := reopen(n, block, a); w != "" {
+				failCase(sigState, fmt.Sprintf("block %d on %s: %s", no, n.name, w), spec, no, n.name)
+			}
+			// ... and everything the header commits to is in the database itself (what a restarted node would find)
+			var w string
+			timed("diskstate", func() { w = diskState(n.db, block) })
+			if w != "" {
+				failCase(sigRestart, fmt.Sprintf("block %d is head on %s (%d outbound ETXs emitted, ETX set changed: %v) but %s", no, n.name, len(block.OutboundEtxs()), block.EtxSetRoot() != parentEtxRoot(n, block), w), spec, no, n.name)
+			}
 			// identical content on every backend
 			h := sha256.New()
 			for _, e := range es {
@@ -1145,6 +1400,9 @@ func runChain(spec ChainSpec, a *actors, tmp string) (res chainResult) {
 			}
 			fmt.Fprintf(os.Stderr, "chain %d block %d txs %d ops %d trimmed %d content %d size %d rootok %v\n", spec.ID, no, len(block.Transactions()), len(txOps), len(trimmedRec), len(primScan), rawdb.ReadUTXOSetSize(prim.db, block.Hash()), rootok)
 		}
+		if sc.rc != nil {
+			sc.rc.afterBlock(block, rawdb.ReadReceipts(prim.db, block.Hash(), no, prim.z.Config))
+		}
 		if sc.storeReady {
 			rcpts := rawdb.ReadReceipts(prim.db, block.Hash(), no, prim.z.Config)
 			for i, tx := range block.Transactions() {
@@ -1180,9 +1438,73 @@ func runChain(spec ChainSpec, a *actors, tmp string) (res chainResult) {
 				}
 			}
 		}
+		// ---- restarts: every node now and then (independently, so that the next block is executed by nodes in
+		// different cache / snapshot situations), one node at fixed steps in the corpus chains, all nodes at the end ----
+		last := step == spec.Len-1
+		for i, n := range nodes {
+			fixed := spec.ID <= corpusChains && step%5 == 4 && i == (step/5)%len(nodes)
+			if !(last || fixed || rr.Chance(10)) {
+				continue
+			}
+			rep.Count("node_restart_" + n.name)
+			if block.EtxSetRoot() != parentEtxRoot(n, block) && len(block.OutboundEtxs()) == 0 {
+				rep.Count("restart_on_head_that_changed_etx_set_and_emitted_none")
+			}
+			var err error
+			timed("restart", func() { err = n.restart() })
+			if err != nil {
+				failCase(sigRestart, fmt.Sprintf("node on %s does not start again over its database after block %d: %s", n.name, no, errClass(err)), spec, no, n.name)
+				res.broken = "restart failed"
+				return
+			}
+			if h := n.z.Hc.CurrentHeader(); h == nil || h.Hash() != block.Hash() {
+				failCase(sigRestart, fmt.Sprintf("after a restart the node on %s does not report the appended block %d as head", n.name, no), spec, no, n.name)
+				res.broken = "head lost by restart"
+				return
+			}
+			if w := reopen(n, block, a); w != "" {
+				failCase(sigRestart, fmt.Sprintf("restarted node on %s, head %d (%d outbound ETXs emitted, ETX set changed: %v): %s", n.name, no, len(block.OutboundEtxs()), block.EtxSetRoot() != parentEtxRoot(n, block), w), spec, no, n.name)
+			}
+			if w := diskState(n.db, block); w != "" {
+				failCase(sigRestart, fmt.Sprintf("restarted node on %s, head %d: %s", n.name, no, w), spec, no, n.name)
+			}
+			if n == prim {
+				// the pool of the old process is gone: forget what the scenario believed to be pending
+				sc.afterPrimaryRestart()
+				if spec.Kind == "random" || spec.Kind == "lockup" || spec.Kind == "recreate" {
+					var lc *common.Address
+					if sc.minerSet {
+						lc = sc.contract
+					}
+					prim.z.VerifC06SetMiner(sc.preferQi, sc.lockByte, lc)
+				}
+			}
+		}
+		if last {
+			// every node has just been restarted: a successor assembled by one is executed identically by all
+			if next, err := prim.z.VerifC06Assemble(true); err != nil {
+				failCase(sigRestart, fmt.Sprintf("restarted node on %s cannot assemble a successor of head %d: %s", prim.name, no, errClass(err)), spec, no, prim.name)
+			} else {
+				var first *procObs
+				for _, n := range nodes {
+					var o *procObs
+					n.z.VerifC06Locked(func() { o = processOnce(n, next, cfgNode) })
+					if o.err != "" || o.validate != "" {
+						failCase(sigRestart, fmt.Sprintf("restarted node on %s cannot execute the successor of head %d: %s %s", n.name, no, o.err, o.validate), spec, no, n.name)
+					}
+					if first == nil {
+						first = o
+					} else if o.fingerprint() != first.fingerprint() {
+						failCase(sigBackend, fmt.Sprintf("successor of head %d executed after a restart differs between %s and %s: %s", no, n.name, nodes[0].name, diffFields(o, first)), spec, no, n.name)
+					}
+				}
+			}
+			break
+		}
 		// ---- what the dominant chain delivers to the child, and new pool transactions ----
 		backlog = append(backlog, block.OutboundEtxs()...)
 		inb := sc.inbound(no)
+		inb = append(inb, sc.takeExtraInbound()...)
 		if sc.r.Chance(75) || spec.Kind == "f5" {
 			inb = append(backlog, inb...)
 			backlog = nil
@@ -1192,7 +1514,7 @@ func runChain(spec ChainSpec, a *actors, tmp string) (res chainResult) {
 				rawdb.WriteInboundEtxs(n.db, block.Hash(), inb)
 			}
 		}
-		prim.z.VerifC06ResetPool()
+		timed("poolreset", func() { prim.z.VerifC06ResetPool() })
 		if sc.deployed && !sc.minerSet {
 			prim.z.VerifC06SetMiner(sc.preferQi, sc.lockByte, sc.contract)
 			sc.minerSet = true
@@ -1214,6 +1536,7 @@ func runChain(spec ChainSpec, a *actors, tmp string) (res chainResult) {
 			}
 		}
 		if nq > 0 { // Quai transactions become pending asynchronously
+			t0 := time.Now()
 			dl := time.Now().Add(300 * time.Millisecond)
 			for time.Now().Before(dl) {
 				if p, _, _ := prim.z.Pool.Stats(); p >= nq {
@@ -1221,6 +1544,7 @@ func runChain(spec ChainSpec, a *actors, tmp string) (res chainResult) {
 				}
 				time.Sleep(2 * time.Millisecond)
 			}
+			spent["poolwait"] += time.Since(t0)
 		}
 	}
 	return
@@ -1328,9 +1652,13 @@ func main() {
 	allKinds := []string{"memorydb", "leveldb", "pebble"}
 
 	var specs []ChainSpec
+	var stoSpecs []ChainSpec
 	if fl.Replay != "" {
 		var s ChainSpec
 		hlib.ReadReplayCase(fl.Replay, &s)
+		if s.Kind == "storage" {
+			stoSpecs = append(stoSpecs, s)
+		}
 		if s.Kind == "mulaw" || s.Kind == "" {
 			muLaws(hlib.NewRng(fl.Seed), 50)
 			s = ChainSpec{ID: 1, Seed: 1, Kind: "f5", Len: 14, Primary: 0, Kinds: allKinds, Reps: 3}
@@ -1341,7 +1669,9 @@ func main() {
 		if s.Reps == 0 {
 			s.Reps = 3
 		}
-		specs = []ChainSpec{s}
+		if s.Kind != "storage" {
+			specs = []ChainSpec{s}
+		}
 	} else {
 		reps := 6
 		length := 28
@@ -1352,15 +1682,24 @@ func main() {
 		specs = append(specs, ChainSpec{ID: 1, Seed: 1, Kind: "f5", Len: 14, Primary: 0, Kinds: allKinds, Reps: 3})
 		specs = append(specs, ChainSpec{ID: 2, Seed: 2, Kind: "clean", Len: 20, Primary: 1, Kinds: allKinds, Reps: reps})
 		specs = append(specs, ChainSpec{ID: 3, Seed: 3, Kind: "lockup", Len: length, Primary: 2, Kinds: allKinds, Reps: reps})
+		specs = append(specs, ChainSpec{ID: 4, Seed: 4, Kind: "recreate", Len: 22, Primary: 0, Kinds: allKinds, Reps: reps})
 		r := hlib.NewRng(fl.Seed)
 		for i := 0; i < fl.N; i++ {
 			kind := "random"
 			if r.Chance(30) {
 				kind = "lockup"
 			}
-			specs = append(specs, ChainSpec{ID: uint64(4 + i), Seed: r.Next() % 1000000, Kind: kind, Len: 12 + r.Intn(length-11), Primary: r.Intn(3), Kinds: allKinds, Reps: reps})
+			specs = append(specs, ChainSpec{ID: uint64(corpusChains + 1 + i), Seed: r.Next() % 1000000, Kind: kind, Len: 12 + r.Intn(length-11), Primary: r.Intn(3), Kinds: allKinds, Reps: reps})
 		}
 		muLaws(hlib.NewRng(fl.Seed), 200)
+		// storage scenarios on the real StateDB, in batches (one Coq case per batch)
+		nSto, per := 120, 40
+		if fl.Tier == "thorough" {
+			nSto = 800
+		}
+		for i := 0; i*per < nSto; i++ {
+			stoSpecs = append(stoSpecs, ChainSpec{ID: uint64(1000 + i), Seed: fl.Seed*1000 + uint64(i), Kind: "storage", StoN: per, StoCorpus: i == 0})
+		}
 	}
 
 	// run; the trim view of the current source is what the targeted chain (and any other chain that hits
@@ -1399,18 +1738,41 @@ func main() {
 		view = "ParentDb"
 	}
 	rep.Note("trim view observed on this source: " + view)
-	cw := hlib.NewCaseWriter(fl.Out, "From Coq Require Import List NArith Bool.\nFrom GQ Require Import Model.C06.\nImport ListNotations.\nLocal Open Scope N_scope.\n", "C06.case", 4)
+	cw := hlib.NewCaseWriter(fl.Out, "From Coq Require Import List NArith ZArith Bool.\nFrom GQ Require Import Model.C06.\nImport ListNotations.\nLocal Open Scope N_scope.\n", "C06.case", 4)
 	for _, d := range all {
 		if len(d.res.blocks) == 0 {
 			continue
 		}
-		term := fmt.Sprintf("(%d, %s, [\n  %s])", d.spec.ID, view, strings.Join(d.res.blocks, ";\n  "))
+		term := fmt.Sprintf("Chain %d %s [\n  %s]", d.spec.ID, view, strings.Join(d.res.blocks, ";\n  "))
 		js := map[string]any{"id": d.spec.ID, "seed": d.spec.Seed, "kind": d.spec.Kind, "len": d.spec.Len, "primary": d.spec.Primary, "backends": d.spec.Kinds, "reps": d.spec.Reps, "blocks": d.res.nBlocks, "f5_blocks": d.res.f5Blocks}
 		cw.Add(term, js)
 		rep.Sample(js)
 		rep.TracesValidated++
 	}
+	for _, sp := range stoSpecs {
+		var scs []stoScenario
+		if sp.Scenario != nil {
+			scs = []stoScenario{*sp.Scenario}
+		} else {
+			scs = storageScenarios(sp.Seed, sp.StoN, sp.StoCorpus)
+		}
+		t0 := time.Now()
+		term := runStorageBatch(sp.ID, scs)
+		spent["storage"] += time.Since(t0)
+		js := map[string]any{"id": sp.ID, "seed": sp.Seed, "kind": "storage", "sto_n": sp.StoN, "sto_corpus": sp.StoCorpus, "scenarios": len(scs)}
+		if sp.Scenario != nil {
+			js["scenario"] = sp.Scenario
+		}
+		cw.Add(term, js)
+		rep.Sample(js)
+		rep.TracesValidated++
+	}
 	cw.Close()
+	if verbose {
+		for _, k := range hlib.SortedKeys(spent) {
+			fmt.Fprintf(os.Stderr, "time %-16s %.1fs\n", k, spent[k].Seconds())
+		}
+	}
 	rep.Write(fl.Out)
 	_ = hex.EncodeToString
 }
